@@ -96,13 +96,13 @@ type bridgeHist struct {
 	group     *world.Group
 	bridgeReq goattypes.BridgeRequests
 	// observers
-	onDeliver  func(st world.SysTx, blk *world.Block)
-	afterBlock func()
-	wd         *wdState
+	onDeliver    func(st world.SysTx, blk *world.Block)
+	afterBlock   func()
+	wd           *wdState
 	onHashes     func(start uint64, hashes [][]byte)
 	onBridgeReqs func(*goattypes.BridgeRequests)
 	extraLocking func(*blockOps)
-	evmCtr     int
+	evmCtr       int
 }
 
 func newBridgeHist(lh *lockHist) *bridgeHist {
@@ -334,6 +334,9 @@ func (b *bridgeHist) depositsOp(items []*bitcointypes.Deposit, headers []*bitcoi
 			why, truth := b.legit(d, hm, inBatch)
 			key := fmt.Sprintf("%x/%d", world.DSha(d.NoWitnessTx), d.OutputIndex)
 			if why != "" {
+				if truth == nil {
+					truth = b.byID[key] // keep the books straight so that the consequences are not reported again
+				}
 				b.viol("illegitimate deposit credited: "+sigClass(why), fmt.Sprintf("batch %q: %s (block %d, claimed position %d, output %d, version %d)", desc, why, d.BlockNumber, d.TxIndex, d.OutputIndex, d.Version))
 			}
 			inBatch[key] = true
